@@ -4,6 +4,7 @@ import (
 	"fmt"
 	"go/token"
 	"go/types"
+	"regexp"
 	"sort"
 	"strings"
 
@@ -43,7 +44,7 @@ func (x *Exec) loopCut(fr *Frame, st *State, h *ssa.BasicBlock, idx int, edges [
 	body := loopBlocks(h)
 	loopName := fmt.Sprintf("loop%d", idx)
 	if spec != nil && fr.depth == 0 {
-		if spec.Var != "" && !loopMentionsVar(body, spec.Var) {
+		if spec.Var != "" && !loopMentionsVar(body, spec.Var) && loopSpecNames(spec, spec.Var) {
 			x.addObl(st, "contract-shape", fmt.Sprintf("%s/contract-shape:%s(%s)", shortFn(x.top), loopName, spec.Var), "false", x.p.pos(blockPos(h)),
 				fmt.Sprintf("loop %d no longer has variable %s", idx, spec.Var))
 		}
@@ -102,6 +103,37 @@ func (x *Exec) bindRangeIdx(fr *Frame, h *ssa.BasicBlock, env *SpecEnv) {
 		}
 		if phi.Comment == "rangeindex" {
 			env.names["G_idx"] = specVal{term: fr.vals[phi], typ: tInt}
+		}
+	}
+	if _, bound := env.names["G_idx"]; bound || len(h.Instrs) == 0 {
+		return
+	}
+	// an index loop `for i := 0; i < n; i++` written instead of a range loop: at the loop head
+	// i counts the elements processed, so the index of the last element processed - what $idx
+	// means - is i - 1 (only for an ascending loop whose head tests `i < ...` on a local i)
+	iff, ok := h.Instrs[len(h.Instrs)-1].(*ssa.If)
+	if !ok {
+		return
+	}
+	bo, ok := iff.Cond.(*ssa.BinOp)
+	if !ok || bo.Op != token.LSS {
+		return
+	}
+	ld, ok := bo.X.(*ssa.UnOp)
+	if !ok || ld.Op != token.MUL {
+		return
+	}
+	a, ok := ld.X.(*ssa.Alloc)
+	if !ok || a.Comment == "" {
+		return
+	}
+	if b, isInt := deref(a.Type()).Underlying().(*types.Basic); !isInt || b.Info()&types.IsInteger == 0 {
+		return
+	}
+	if la, ok := fr.laddr[a]; ok && la != nil {
+		if _, init := env.st.cells[a]; init {
+			env.names["G_idx"] = specVal{term: "(- " + x.cellRead(env.st, la) + " 1)", typ: tInt}
+			x.vc.note(fmt.Sprintf("$idx of an index loop of %s is read as %s - 1", shortFn(fr.fn), a.Comment))
 		}
 	}
 }
@@ -530,4 +562,16 @@ func (x *Exec) monitorCall(fr *Frame, st *State, ci ssa.CallInstruction, m *Moni
 			}
 		}
 	}
+}
+
+// loopSpecNames: some clause of the loop block mentions the name (as a whole word). The variable in
+// `loop N (v)` is a hint for the reader; its disappearance matters only if a clause speaks about it.
+func loopSpecNames(spec *LoopSpec, name string) bool {
+	re := regexp.MustCompile(`(^|[^A-Za-z0-9_$.])` + regexp.QuoteMeta(name) + `([^A-Za-z0-9_]|$)`)
+	for _, inv := range spec.Invariants {
+		if re.MatchString(inv.Text) {
+			return true
+		}
+	}
+	return false
 }
